@@ -1,4 +1,5 @@
 import RreModel.C10.Model
+import RreModel.C16.Model
 /-
 C09 / C10-B — model of the backward-chaining search (`src/backward/search.rs`,
 `backward_engine.rs::query_with_rete_engine`, `rule_executor.rs::try_execute_rule`,
@@ -48,23 +49,65 @@ inductive Val where
   | str (s : String)   -- `Value::String`, non-numeric text in the tie
   | arr (l : List Elem) -- `Value::Array` of scalars (what the `Append` action builds / extends)
   | obj (speed : Int)  -- `Value::Object {"Speed": Number(speed)}`: the receiver of `setSpeed` / `getSpeed`
+  | null               -- `Value::Null` as a PRESENT value (`Data f = some .null`; an absent key is `none`)
 deriving Repr, DecidableEq, Inhabited
 
+/-- `types.rs::Operator`, all twelve -/
 inductive Cmp where
   | eq | ne | gt | lt | ge | le
+  | contains | notContains | startsWith | endsWith | matches | isIn
 deriving Repr, DecidableEq, Inhabited
 
-/-- `Value::to_number` (strings in the tie never parse as numbers) -/
+/-- `-?[0-9]+` as a whole number: what `str::parse::<f64>` accepts among the texts of the tie (no other float syntax —
+fractions, exponents, `inf`, `nan` — reaches it there) -/
+def parseWhole (s : List Char) : Option Int :=
+  let digs := fun (ds : List Char) =>
+    if ds.isEmpty || !ds.all Char.isDigit then none
+    else some (ds.foldl (fun acc c => acc * 10 + (c.toNat - '0'.toNat)) 0)
+  match s with
+  | '-' :: ds => (digs ds).map fun n => - (Int.ofNat n)
+  | ds => (digs ds).map Int.ofNat
+
+/-- `Value::to_number`: a string counts when `str::parse::<f64>` reads it (`"42"`, `"-7"`; no trimming) -/
 def Val.toNumber : Val → Option Int
   | .num n => some n
   | .int n => some n
+  | .str s => parseWhole s.toList
   | _ => none
 
-/-- `Operator::evaluate` on non-null values -/
+/-- `matches!(v, Value::Null) || matches!(v, Value::String(s) if s == "null")`: what `==` / `!=` take for null as soon
+as ONE side is `Value::Null` -/
+def Val.nullish : Val → Bool
+  | .null => true
+  | .str s => s == "null"
+  | _ => false
+
+def Elem.toVal : Elem → Val
+  | .bool b => .bool b
+  | .num n => .num n
+  | .int n => .int n
+  | .str s => .str s
+
+/-- the string operators: both sides `Value::String` (`as_string_ref`), else `false` -/
+def strOp (p : List Char → List Char → Bool) (l r : Val) : Bool :=
+  match l, r with
+  | .str a, .str b => p a.toList b.toList
+  | _, _ => false
+
+/-- `str::ends_with` -/
+def isSuffix (pat s : List Char) : Bool := pat.reverse.isPrefixOf s.reverse
+
+/-- `Operator::evaluate` (a present `Value::Null` included; `Matches` is "just use contains as a simple match") -/
 def cmpEval (op : Cmp) (l r : Val) : Bool :=
   match op with
-  | .eq => l == r
-  | .ne => l != r
+  | .eq => if l == .null || r == .null then l.nullish == r.nullish else l == r
+  | .ne => if l == .null || r == .null then l.nullish != r.nullish else l != r
+  | .contains => strOp (fun a b => C16.isInfix b a) l r
+  | .notContains => strOp (fun a b => !C16.isInfix b a) l r
+  | .startsWith => strOp (fun a b => b.isPrefixOf a) l r
+  | .endsWith => strOp (fun a b => isSuffix b a) l r
+  | .matches => strOp (fun a b => C16.isInfix b a) l r
+  | .isIn => match r with | .arr es => es.any (fun e => e.toVal == l) | _ => false
   | .gt => match l.toNumber, r.toNumber with | some a, some b => decide (a > b) | _, _ => false
   | .lt => match l.toNumber, r.toNumber with | some a, some b => decide (a < b) | _, _ => false
   | .ge => match l.toNumber, r.toNumber with | some a, some b => decide (a ≥ b) | _, _ => false
@@ -184,10 +227,83 @@ def fire (r : Rule) (s : Store) : Bool × Store := applyMore r.more (applyActs r
 /-- the data-level effect of firing a rule (up to its first failing action) -/
 def fireData (r : Rule) (d : Data) : Bool × Data := applyMoreData r.more (applyActsData r.acts d)
 
-/-- a condition that becomes a sub-goal is printed and parsed back: `Integer` literals return as
-`Number` (`parse_value_string` tries `f64` first) -/
+/-! ### the goal-pattern round trip of a condition that becomes a sub-goal
+
+`try_prove_single_condition` PRINTS the condition (`condition_to_goal_pattern`: `"<field> <op> <literal>"`) and every check of
+the sub-goal PARSES that text back (`check_goal_in_facts` → `parse_goal_pattern` → `parse_value_string`).  Both directions are
+modelled on the text.  What does not survive: an `Integer` literal (`parse::<f64>` is tried first: F-C09b), a string literal
+whose text contains an operator of the parser's table that is looked for EARLIER than the condition's own operator (the text
+is cut there: the "field" becomes `X != "a` — no fact has that name —, the literal the rest), `In` (not in the table at all:
+`None`, the check is `false`), and a string literal with surrounding blanks that lost its quotes through such a cut. -/
+
+def cmpStr : Cmp → String
+  | .eq => "==" | .ne => "!=" | .gt => ">" | .lt => "<" | .ge => ">=" | .le => "<="
+  | .contains => "contains" | .notContains => "not_contains" | .startsWith => "starts_with" | .endsWith => "ends_with"
+  | .matches => "matches" | .isIn => "in"
+
+/-- `<str as Debug>::fmt` on the printable ASCII text of the tie: `"` and `\` are escaped -/
+def debugStr (s : String) : String :=
+  "\"" ++ String.ofList (s.toList.flatMap fun c => if c = '"' || c = '\\' then ['\\', c] else [c]) ++ "\""
+
+/-- `{:?}` of a scalar `Value` (whole `f64`s below 1e16 print as `<int>.0`) -/
+def debugElem : Elem → String
+  | .bool b => "Boolean(" ++ (if b then "true" else "false") ++ ")"
+  | .num n => "Number(" ++ toString n ++ ".0)"
+  | .int n => "Integer(" ++ toString n ++ ")"
+  | .str s => "String(" ++ debugStr s ++ ")"
+
+/-- the literal as `condition_to_goal_pattern` prints it (and as the query text carries it):
+`b.to_string()`, `n.to_string()` (whole numbers: no fraction digits), `i.to_string()`, `"\"{}\""` (NO escaping), `null`,
+and `{:?}` for the rest (arrays of scalars in the tie; a condition literal is never an object there) -/
+def litStr : Val → String
+  | .bool b => if b then "true" else "false"
+  | .num n => toString n
+  | .int n => toString n
+  | .str s => "\"" ++ s ++ "\""
+  | .arr l => "Array([" ++ ", ".intercalate (l.map debugElem) ++ "])"
+  | .obj _ => "?"
+  | .null => "null"
+
+/-- the operator table of `parse_goal_pattern`, in the order it is tried -/
+def goalOpTable : List (String × Cmp) :=
+  [(">=", .ge), ("<=", .le), ("==", .eq), ("!=", .ne), (" > ", .gt), (" < ", .lt), (" contains ", .contains),
+   (" not_contains ", .notContains), (" starts_with ", .startsWith), (" startsWith ", .startsWith),
+   (" ends_with ", .endsWith), (" endsWith ", .endsWith), (" matches ", .matches)]
+
+/-- `parse_value_string` (after fix F-C09i: a lone quote character is not a quoted string; before it `&s[1..0]` panicked) -/
+def parseValueString (s : List Char) : Val :=
+  let s := C16.trim s
+  if s = "true".toList then .bool true
+  else if s = "false".toList then .bool false
+  else if s = "null".toList then .null
+  else if s.length ≥ 2 && ((s.head? == some '"' && s.getLast? == some '"') || (s.head? == some '\'' && s.getLast? == some '\''))
+  then .str (String.ofList (s.drop 1).dropLast)
+  else match parseWhole s with
+    | some n => .num n
+    | none => .str (String.ofList s)
+
+/-- `parse_goal_pattern`: the first operator OF THE TABLE that occurs anywhere in the text cuts it -/
+def parseGoalPatternAux (p : List Char) : List (String × Cmp) → Option (List Char × Cmp × Val)
+  | [] => none
+  | (t, op) :: rest =>
+    match C16.findSub t.toList p 0 with
+    | some pos => some (C16.trim (p.take pos), op, parseValueString (p.drop (pos + t.length)))
+    | none => parseGoalPatternAux p rest
+
+def parseGoalPattern (p : String) : Option (String × Cmp × Val) :=
+  (parseGoalPatternAux p.toList goalOpTable).map fun r => (String.ofList r.1, r.2)
+
+/-- the number of a key that no fact store of the tie holds: where the goal-pattern round trip lands when the text in
+front of the operator it found is not the field name any more (`X contains "a` …) -/
+def lostField : Nat := 1000000
+
+/-- print and parse back.  The field names of the tie contain neither blanks nor `= ! < >`, so only the text BEHIND the
+name matters: the round trip is run with the stand-in name `F`.  A pattern that does not parse (`In`) makes every check of the
+sub-goal `false`, as a comparison `==` on a missing field does. -/
 def reparse (a : Atom) : Atom :=
-  { a with val := match a.val with | .int n => .num n | v => v }
+  match parseGoalPattern ("F " ++ cmpStr a.op ++ " " ++ litStr a.val) with
+  | some (f, op, v) => ⟨if f = "F" then a.field else lostField, op, v⟩
+  | none => ⟨lostField, .eq, .null⟩
 
 structure Env where
   kb : List Rule
